@@ -1051,7 +1051,17 @@ func createLeaseSet2Signature(signingKey interface{}, data []byte, sigType uint1
 		}
 	}
 
-	// Other key forms and signature types are not implemented: an empty signature of the
+	// Signing with other key forms or for other signature types is not implemented. A key
+	// that cannot be used is refused, as NewEncryptedLeaseSet does, rather than silently
+	// producing a LeaseSet2 that looks signed but never verifies.
+	if signingKey != nil {
+		return sig.Signature{}, oops.
+			Code("unsupported_key_type").
+			With("signature_type", sigType).
+			Errorf("unsupported signing key type %T for signature type %d", signingKey, sigType)
+	}
+
+	// Without a signing key the LeaseSet2 is left unsigned: an all-zero signature of the
 	// correct size is stored (it does not verify).
 	signatureData := make([]byte, sigSize)
 	signature, err := sig.NewSignatureFromBytes(signatureData, int(sigType))
